@@ -190,6 +190,44 @@ def _finish(res, dg):
     return res
 
 
+def reduced_partial(tag, eos, name, rho, y, an, fds, side, call):
+    """Reduced oracles (DESIGN.md 3.6): which *recorded* defect, if any, explains this failing partial exactly.
+
+    'swapped-args-missing-P'  Carnahan-Starling de_drho(rho, P) returns d/drho[1/(Z(b rho) rho (gamma-1))] evaluated at rho := P,
+                              i.e. the derivative of e(., P=1) at the density P (arguments swapped, factor P missing); where that
+                              density is 0 or on the pole b*P = 1 it raises.
+    'dPinf-sign'              Steinberg, rho >= rho_ref: dPinf_drho is too large by 2 c0^2 rho_ref eta poly'(eta)/poly(eta)^2 * deta/drho;
+                              dP_drho and de_drho inherit exactly that error (directly and through deinf_drho).
+    Anything else returns 'none' and is reported as a new violation even when the recorded defects are listed."""
+    try:
+        if tag[0] == "carnahan" and name == "de_drho":
+            b = tag[2]
+            if an is None:
+                return "swapped-args-missing-P" if (y == 0 or abs(b * y - 1.0) < 1e-12) else "none"
+            best = float("inf")
+            for hr in FD_REL:
+                h = hr * y
+                if y - 2 * h <= 0 or (b * (y - 2 * h) - 1.0) * (b * (y + 2 * h) - 1.0) <= 0:
+                    continue
+                alt = _d4(lambda x: call(eos.e, x, 1.0), y, h)
+                best = min(best, abs(an - alt) / max(abs(an), abs(alt), 1e-300))
+            return "swapped-args-missing-P" if best <= TOL_PARTIAL else "none"
+        if tag[0] in ("aluminum", "steinberg") and name in ("dP_drho", "de_drho") and side == "rho>=rho_ref" and an is not None:
+            ref, g0, bb, c0 = eos.reference_density, eos.reference_gruneisen, eos.b, eos.c_0
+            s1, s2, s3 = eos.s_1, eos.s_2, eos.s_3
+            eta = 1.0 - ref / rho
+            q = 1.0 - s1 * eta - s2 * eta ** 2 - s3 * eta ** 3
+            poly, dpoly = q * q, 2.0 * q * (-s1 - 2.0 * s2 * eta - 3.0 * s3 * eta ** 2)
+            dPinf_err = 2.0 * c0 ** 2 * ref * eta * dpoly / poly ** 2 * ref / rho ** 2
+            gru = g0 * (1.0 - eta) + bb * eta
+            err = dPinf_err * (1.0 - rho * gru * eta / (2.0 * ref)) if name == "dP_drho" else dPinf_err * (-1.0 / (rho * gru) + eta / (2.0 * ref))
+            m = min(abs(an - (fd + err)) / max(abs(an), abs(fd), abs(err), 1e-300) for fd in fds)
+            return "dPinf-sign" if m <= 1e-5 else "none"
+    except Exception:
+        pass
+    return "none"
+
+
 def run_eos(task):
     tier = task["tier"]
     tag = task["eos"]
@@ -207,10 +245,11 @@ def run_eos(task):
     else:
         rhos = [x for x in RHO_GAS[tier] if x < meta["rho_max"]]
     Ps, es = meta["P_s"], meta["e_s"]
-    agg = {}     # (clause, side) -> [worst, state, nbad, n, detail]
+    agg = {}     # (clause, where) -> [worst, state, nbad, n, detail, tol, where]
 
-    def note(clause, side, m, state, tol, detail=None):
-        a = agg.setdefault((clause, side), [0.0, None, 0, 0, None, tol])
+    def note(clause, where, m, state, tol, detail=None):
+        key = (clause, tuple(sorted(where.items())))
+        a = agg.setdefault(key, [0.0, None, 0, 0, None, tol, where])
         a[3] += 1
         if not m <= tol:
             a[2] += 1
@@ -234,10 +273,10 @@ def run_eos(task):
                     back = call(f2, rho, call(f1, rho, x))
                     m = abs(back - x) / (abs(x) + xs)
                     dg.add(back)
-                    note(clause, side, m if m == m else 1.0, [rho, v], TOL_CLOSURE, {"in": x, "back": back})
+                    note(clause, {"side": side}, m if m == m else 1.0, [rho, v], TOL_CLOSURE, {"in": x, "back": back})
                 except Exception as ex:
                     C["exc:" + type(ex).__name__] = C.get("exc:" + type(ex).__name__, 0) + 1
-                    note(clause, side, 1.0, [rho, v], TOL_CLOSURE, {"exception": type(ex).__name__ + ": " + str(ex)[:120]})
+                    note(clause, {"side": side}, 1.0, [rho, v], TOL_CLOSURE, {"exception": type(ex).__name__ + ": " + str(ex)[:120]})
             if kink and rho == kink:
                 C["states_on_branch_point_closures_only"] = C.get("states_on_branch_point_closures_only", 0) + 1
                 continue
@@ -250,7 +289,8 @@ def run_eos(task):
                     dg.add(an)
                 except Exception as ex:
                     C["exc:" + type(ex).__name__] = C.get("exc:" + type(ex).__name__, 0) + 1
-                    note(clause, side, 1.0, [rho, v], TOL_PARTIAL, {"exception": type(ex).__name__ + ": " + str(ex)[:120]})
+                    red = reduced_partial(tag, eos, name, rho, y, None, None, side, call)
+                    note(clause, {"side": side, "reduced": red}, 1.0, [rho, v], TOL_PARTIAL, {"exception": type(ex).__name__ + ": " + str(ex)[:120]})
                     continue
                 ys = Ps if name.startswith("de") else es          # scale of the held/varied second argument
                 fs = es if name.startswith("de") else Ps          # scale of the function value
@@ -261,6 +301,7 @@ def run_eos(task):
                     x0, xs, dscale = y, (ys if y == 0 else max(abs(y), 1e-3 * ys)), fs / ys
                     f = lambda x: call(clo, rho, x)
                 best = None
+                fds = []
                 for hr in FD_REL:
                     h = hr * xs
                     if wrt_rho and kink and (x0 - 2 * h - kink) * (x0 + 2 * h - kink) <= 0:
@@ -274,15 +315,20 @@ def run_eos(task):
                         continue
                     m = abs(an - fd) / (max(abs(an), abs(fd)) + 1e-6 * dscale)
                     m = m if m == m else 1.0
+                    fds.append(fd)
                     if best is None or m < best[0]:
                         best = (m, fd)
                 if best is None:
                     C["partials_without_stencil"] = C.get("partials_without_stencil", 0) + 1
                     continue
-                note(clause, side, best[0], [rho, v], TOL_PARTIAL, {"analytic": an, "central_difference": best[1]})
-    for (clause, side), (worst, state, nbad, n, detail, tol) in sorted(agg.items()):
+                where = {"side": side}
+                if not best[0] <= TOL_PARTIAL:
+                    where["reduced"] = reduced_partial(tag, eos, name, rho, y, an, fds, side, call)
+                note(clause, where, best[0], [rho, v], TOL_PARTIAL, {"analytic": an, "central_difference": best[1]})
+    for key, (worst, state, nbad, n, detail, tol, where) in sorted(agg.items()):
+        clause = key[0]
         if nbad:
-            res["violations"].append({"solver": solver, "cfg": cfg, "clause": clause, "where": {"side": side}, "value": worst, "tol": tol,
+            res["violations"].append({"solver": solver, "cfg": cfg, "clause": clause, "where": where, "value": worst, "tol": tol,
                                       "detail": {"worst_state_rho_value": state, "n_bad_states": nbad, "n_states": n, "worst": detail}})
     C["eos_states"] = len(rhos) * len(VALS[tier])
     res["sample"] = {"kind": "eos", "eos": tag, "class": solver, "densities": rhos, "value_factors": VALS[tier], "P_scale": Ps, "e_scale": es}
@@ -301,6 +347,40 @@ JAC_RHO = {"quick": [0.5, 1.3, 2.0, 4.0, 6.5], "thorough": [0.5, 0.8, 1.3, 2.0, 
 JAC_RHO_STEIN = {"quick": [0.6, 0.97, 1.03, 1.4, 2.0], "thorough": [0.6, 0.9, 0.97, 1.03, 1.2, 1.4, 2.0]}
 JAC_VAL = {"quick": [0.02, 0.5, 1.0, 3.0, 40.0], "thorough": [0.02, 0.2, 0.5, 1.0, 3.0, 10.0, 40.0]}
 JAC_D = {"quick": [0.2, 1.0 / 3.0, 0.5, 1.0, 2.0], "thorough": [0.1, 0.2, 1.0 / 3.0, 0.5, 1.0, 2.0, 5.0]}
+
+
+def explain_entry(eos, rc, dep, x, ic, kink, J, FDs):
+    """Reduced oracle for a failing F_prime entry: is it wrong by *exactly* a recorded kind of error?
+
+    'eos-partial'  the entry contains an EOS partial (DEP) and  F_prime - FD  equals  factor * (analytic partial - central
+                   difference of the closure)  at this state, i.e. the residual class is right and only the EOS partial it calls is
+                   wrong (factor = 1, or 1 - rho0/rho in simplified_pressure_noh_residual, from the documented equations);
+    'sign-flip'    the entry equals minus its finite difference;
+    'none'         anything else (reported as a new violation even when the recorded defects are listed)."""
+    try:
+        if dep != "none":
+            rho, y = x[0], x[1]
+            clo = eos.e if dep.startswith("de") else eos.P
+            an = float(getattr(eos, dep)(rho, y))
+            factor = (1.0 - ic["density"] / rho) if rc == "simplified_pressure_noh_residual" else 1.0
+            for hr in FD_REL:
+                if dep.endswith("rho"):
+                    h = hr * rho
+                    if kink and (rho - 2 * h - kink) * (rho + 2 * h - kink) <= 0:
+                        continue
+                    fd = _d4(lambda z: float(clo(z, y)), rho, h)
+                else:
+                    h = hr * abs(y)
+                    fd = _d4(lambda z: float(clo(rho, z)), y, h)
+                dE = factor * (an - fd)
+                for FD in FDs:          # the finite differences of F at every step size that had a stencil
+                    if abs((J - FD) - dE) <= 1e-5 * max(abs(J - FD), abs(dE)):
+                        return "eos-partial"
+        if J != 0 and any(abs(J + FD) <= 1e-6 * max(abs(J), abs(FD)) for FD in FDs):
+            return "sign-flip"
+    except Exception:
+        pass
+    return "none"
 
 
 def run_jac(task):
@@ -369,6 +449,7 @@ def run_jac(task):
         res["nontrivial"].append("%s|%s|%d|%d|%r" % (tag, rc, sym, task["ic"], x))
         ax = np.abs(np.array(x))
         best = None
+        allFD = []
         for hr in FD_REL:
             if kink and (x[0] * (1 - 2 * hr) - kink) * (x[0] * (1 + 2 * hr) - kink) <= 0:
                 continue
@@ -389,6 +470,7 @@ def run_jac(task):
             with np.errstate(all="ignore"):
                 m = np.abs(J - FD) / (np.maximum(np.abs(J), np.abs(FD)) + 1e-4 * S)
             m = np.where(np.isfinite(m), m, 1.0)
+            allFD.append(FD)
             if best is None:
                 best, bestFD = m, FD
             else:
@@ -400,7 +482,10 @@ def run_jac(task):
             for i in range(dim):
                 for j in range(dim):
                     ent = "%d,%d" % (i, j)
-                    note("jacobian:F_prime", {"entry": ent, "dep": DEP[rc].get(ent, "none"), "side": side}, float(best[i, j]), x, TOL_JAC,
+                    where = {"entry": ent, "dep": DEP[rc].get(ent, "none"), "side": side}
+                    if not best[i, j] <= TOL_JAC:
+                        where["explained"] = explain_entry(eos, rc, where["dep"], x, ic, kink, float(J[i, j]), [float(A[i, j]) for A in allFD])
+                    note("jacobian:F_prime", where, float(best[i, j]), x, TOL_JAC,
                          {"F_prime": float(J[i, j]), "central_difference": float(bestFD[i, j])})
         # inverse: (Ji @ J - I)_ij, each dot product normalised by the sum of the magnitudes of its terms plus the
         # variable-scaled unit |x_i|/|x_j| (Ji @ J is invariant under row scalings of F and scales like x_i/x_j)
